@@ -9,7 +9,7 @@ import mcfam
 from pymc import LANGS, NAMINGS, to_obj, to_text, to_tree, T, call_mc
 
 FOREIGN = 999
-ODD_ATOMS = {'p': 'not', 'q': '(p or q)'}      # atom names that look like operators / formulas
+ODD_ATOMS = {'p': 'not', 'q': 'A G (x U y)'}      # atom names that look like operators / formulas
 
 
 def present_kripke(K, pres, rng):
@@ -77,6 +77,13 @@ def _attr_names(obj):
     return sorted(names)
 
 
+def _plain_atoms(f):
+    import re
+    if f[0] == 'ap':
+        return re.match(r'^[a-zA-Z_][a-zA-Z_0-9]*$', f[1]) is not None and f[1] not in ('true', 'false', 'not', 'or', 'and', 'A', 'E', 'X', 'F', 'G', 'U', 'R')
+    return all(_plain_atoms(x) for x in f[1:] if isinstance(x, tuple))
+
+
 def run_history(h):
     """h: {trace, ks:[K], fs:[{logic,f}], pres:[per-K presentation], steps:[...], limit}"""
     rng = random.Random(h.get('seed', 0))
@@ -91,7 +98,7 @@ def run_history(h):
         if odd[k]:
             f = rename_atoms(f, ODD_ATOMS)
         key = (j, odd[k])
-        if mode == 'text' and not odd[k]:
+        if mode == 'text' and not odd[k] and _plain_atoms(f):
             if key not in ftxt:
                 ftxt[key] = to_text(f, fl['logic'])
             return ftxt[key]
